@@ -63,6 +63,9 @@ class TOpt(Ty):
 class TTup(Ty):
     def __init__(self, ts): self.ts = tuple(ts)
     def coq(self): return '(' + ' * '.join(t.coq() for t in self.ts) + ')'
+class TSum(Ty):
+    def __init__(self, a, b): self.a, self.b = a, b
+    def coq(self): return '(%s + %s)' % (self.a.coq(), self.b.coq())
 class TLst(Ty):
     def __init__(self, t): self.t = t
     def coq(self): return 'list (%s)' % self.t.coq()
@@ -330,13 +333,19 @@ class Translator:
         kind: 'func' | 'method' | 'static' | 'classmethod' | 'init'"""
         key = (kind, owner, mod, fn.name, tuple(repr(a) for a in arg_tys), self_cls)
         if key in self.done:
+            if want_name and want_name != self.done[key][0] and want_name not in self.names:
+                # a root asks for a name of something already emitted: alias
+                self.names.add(want_name)
+                nm, rty, orcs = self.done[key]
+                self.out.append((want_name, 'Definition %s := %s.\n' % (want_name, nm)))
             return self.done[key]
         if key in self.stack:
             raise Untranslatable('recursion in %s' % fn.name)
         fnm = fn.name
         if fnm.startswith('__') and fnm.endswith('__'):
             fnm = 'op_' + fnm.strip('_')
-        base = want_name or ((owner + '_' + fnm) if owner else (mod.split('.')[-1] + '_' + fnm))
+        base = want_name or ((owner + '_' + fnm) if owner else
+                             ((mod.split('.')[-1] + '_' + fnm) if fnm.startswith('_') else fnm))
         if want_name is None and owner and self_cls and self_cls != owner and kind in ('init',):
             base = self_cls + '_' + fnm
         name, i = base, 1
@@ -529,12 +538,33 @@ class FuncTranslator:
             if isinstance(t, TNone):
                 has_none = True
                 continue
-            cur = t if cur is None else self.join(cur, t)
+            if isinstance(t, TOpt):
+                has_none = True
+                t = t.t
+            if cur is None:
+                cur = t
+                continue
+            if isinstance(cur, TSum):
+                if self.try_join(cur.a, t) is not None:
+                    cur = TSum(self.try_join(cur.a, t), cur.b)
+                elif self.try_join(cur.b, t) is not None:
+                    cur = TSum(cur.a, self.try_join(cur.b, t))
+                else:
+                    self.fail(self.fn, 'more than two unrelated return types')
+                continue
+            j = self.try_join(cur, t)
+            cur = j if j is not None else TSum(cur, t)
         if cur is None:
             return NONE
         if has_none and not isinstance(cur, TOpt):
             cur = TOpt(cur)
         return cur
+
+    def try_join(self, a, b):
+        try:
+            return self.join(a, b)
+        except Untranslatable:
+            return None
 
     def join(self, a, b):
         if a == b: return a
@@ -558,6 +588,11 @@ class FuncTranslator:
 
     def coerce(self, v, t):
         """coerce value v to type t (Coq text)"""
+        if isinstance(t, TSum) and not isinstance(v.t, TSum):
+            if self.try_join(t.a, v.t) is not None and same_coq(self.try_join(t.a, v.t), t.a):
+                return 'inl ' + paren(self.coerce(v, t.a))
+            if self.try_join(t.b, v.t) is not None and same_coq(self.try_join(t.b, v.t), t.b):
+                return 'inr ' + paren(self.coerce(v, t.b))
         if isinstance(t, TOpt):
             if isinstance(v.t, TNone): return 'None'
             if isinstance(v.t, TOpt):
@@ -1090,7 +1125,9 @@ class FuncTranslator:
             return Val('match %s with None => %s | Some %s => %s end' % (v.s, self.coerce(a, t), cn, self.coerce(b, t)), t)
         c = self.cond(e.test, env)
         a, b = self.expr(e.body, env), self.expr(e.orelse, env)
-        t = self.join(a.t, b.t)
+        t = self.try_join(a.t, b.t)
+        if t is None:
+            t = TSum(a.t, b.t)
         if isinstance(t, TNum): t = Q
         return Val('(if %s then %s else %s)' % (c, self.coerce(a, t), self.coerce(b, t)), t)
 
